@@ -4,6 +4,7 @@ import (
 	"fmt"
 	"math/big"
 	"strconv"
+	"strings"
 
 	"mhubsim/ext"
 
@@ -201,8 +202,8 @@ func (o *C01) AfterEnd(w *World) {
 type C11 struct {
 	BaseOracle
 	tokenInfos []*mhub2types.TokenInfo
-	preBal    map[string]sdk.Int
-	preDigest [2][32]byte
+	preBal     map[string]sdk.Int
+	preDigest  [2][32]byte
 }
 
 func (*C11) Property() string { return "C11" }
@@ -383,20 +384,58 @@ func senderBalKey(addr sdk.AccAddress, denom string) []byte {
 	return append(k, []byte(denom)...)
 }
 
-// maxDiscount asks the public query for both parties (as the statement's tiers are defined on holders).
+// holderDiscountTiers: the bridge's published discount table (holding >= 2^k HUB lowers the commission by (k+1)*10 %).
+var holderDiscountTiers = []struct {
+	hub  int64
+	disc *big.Rat
+}{{32, big.NewRat(60, 100)}, {16, big.NewRat(50, 100)}, {8, big.NewRat(40, 100)}, {4, big.NewRat(30, 100)}, {2, big.NewRat(20, 100)}, {1, big.NewRat(10, 100)}}
+
+func normHolderAddr(a string) string {
+	a = strings.ToLower(a)
+	if strings.HasPrefix(a, "0x") {
+		a = a[2:]
+	}
+	return a
+}
+
+// maxDiscount computes, from the holder list the oracle module adopted and the published tiers, the discount
+// owed when any of the parties is a holder; the hub's own DiscountForHolder query must agree with it.
 func (o *C11) maxDiscount(w *World, addrs ...string) *big.Rat {
-	var best *big.Rat
+	best := new(big.Rat)
+	holders := w.ReadState().OracleHolders()
+	one := pow10(18)
 	for _, a := range addrs {
-		var resp mhub2types.DiscountForHolderResponse
-		if err := w.N().Query("/mhub2.v1.Query/DiscountForHolder", &mhub2types.DiscountForHolderRequest{Address: a}, &resp); err != nil {
-			return nil
+		var held *big.Int
+		if holders != nil {
+			for _, h := range holders.List {
+				if normHolderAddr(h.Address) == normHolderAddr(a) && !h.Value.IsNil() {
+					held = h.Value.BigInt()
+					break // the first entry of an address counts (lists carry an address once)
+				}
+			}
 		}
-		d, ok := new(big.Rat).SetString(resp.Discount.String())
-		if !ok {
-			return nil
+		d := new(big.Rat)
+		if held != nil {
+			for _, t := range holderDiscountTiers {
+				if held.Cmp(new(big.Int).Mul(big.NewInt(t.hub), one)) >= 0 {
+					d = t.disc
+					break
+				}
+			}
 		}
-		if best == nil || d.Cmp(best) > 0 {
+		if d.Cmp(best) > 0 {
 			best = d
+		}
+		// the public query is the user-visible face of the same table
+		var resp mhub2types.DiscountForHolderResponse
+		if err := w.N().Query("/mhub2.v1.Query/DiscountForHolder", &mhub2types.DiscountForHolderRequest{Address: a}, &resp); err == nil {
+			if q, ok := new(big.Rat).SetString(resp.Discount.String()); ok {
+				w.St.Check("C11:discount-query")
+				if q.Cmp(d) != 0 {
+					w.Fail("C11", "commission", "discount-query", fmt.Sprintf("DiscountForHolder(%s) answers %s; the adopted holder list and the tiers give %s", a, q.FloatString(2), d.FloatString(2)))
+					return nil
+				}
+			}
 		}
 	}
 	return best
